@@ -22,7 +22,9 @@ RULE = (
     "one decision. distinct = (implementation, m, k, NIS case); non-trivial = the case lies within 1 ulp of the boundary "
     "or flips the decision relative to its neighbour. General filters (coupled 2-3 state models, non-zero state) x priors {dense, dense "
     "with a 1-ulp asymmetry, output of a prediction} x every sensor x outliers {1e3, -1e6 in each reading; +-inf for 1-reading "
-    "sensors}: a discard returns state and covariance bit for bit (Python filter and generated C++ filter)."
+    "sensors}: a discard returns state and covariance bit for bit (Python filter and generated C++ filter). Thresholds are also given as "
+    "int, numpy.int64 and numpy.float64 values (the boundary cases are the same; a float32 threshold is not used, its bound is "
+    "legitimately computed in single precision)."
 )
 ASSUMPTIONS = [
     "decision oracle: IEEE double comparison NIS > k*sqrt(2*m)+m evaluated in Python floats (same expression as the property)",
@@ -35,7 +37,17 @@ KS_EXTRA = [2.718281828459045, 1.0 / 3.0, 4e-07, 123.456789012345]
 
 
 def threshold(k, m):
-    return k * sqrt(2 * m) + m
+    return float(k) * sqrt(2 * m) + m
+
+
+# the same thresholds given as another numeric type (a threshold of 4 is usually written 4, not 4.0)
+KS_TYPED = [(4, "int"), (1, "int"), (3, "np.int64"), (1.5, "np.float64")]
+
+
+def typed(k, ktype):
+    if ktype is None or k is None:
+        return k
+    return {"int": int, "np.float32": np.float32, "np.int64": np.int64, "np.float64": np.float64}[ktype](k)
 
 
 def identity_def(m):
@@ -53,6 +65,10 @@ def cases(tier, seed):
     for m in MS:
         for k in KS + KS_EXTRA + [None]:
             yield {"kind": "py-filter", "m": m, "k": k}
+    for m in (1, 2, 3):
+        for k, kt in KS_TYPED:
+            yield {"kind": "py-direct", "m": m, "k": k, "ktype": kt}
+            yield {"kind": "py-filter", "m": m, "k": k, "ktype": kt}
     # several sensors of different dimension in ONE filter: each sensor's decision uses its own dimension
     for dims in ([1, 3], [3, 1], [2, 4, 1]):
         for k in (2.0, 5.0):
@@ -226,12 +242,12 @@ def eval_case(case):
     if case["kind"].startswith("cpp"):
         from fv.props import c06_cpp
         return c06_cpp.eval_case(case)
-    m, k = case["m"], case["k"]
+    m, k = case["m"], typed(case["k"], case.get("ktype"))
     fails, outcomes, sigs = [], set(), []
     n = 0
 
     def fail(key, what):
-        fails.append({"key": f"{key}:{case['kind']}", "what": f"{case['kind']} m={m} k={k}: {what}"})
+        fails.append({"key": f"{key}:{case['kind']}", "what": f"{case['kind']} m={m} k={k!r}{' (' + case['ktype'] + ')' if case.get('ktype') else ''}: {what}"})
 
     if case["kind"] == "py-direct":
         ekf = pyimpl.py_ekf(identity_def(1), {"innovation_filtering": k})
@@ -248,7 +264,7 @@ def eval_case(case):
             sigs.append(f"pyd:{m}:{k}:{label}")
             if got != exp:
                 fail("decision", f"remove_innovation={got} but NIS {float(nis)!r} > T {threshold(k or 0, m)!r} is {exp} ({label})")
-        return {"n": n, "fails": fails[:3], "outcomes": [f"{o}:m{m}:k{k}" for o in outcomes] + list(outcomes),
+        return {"n": n, "fails": fails[:3], "outcomes": [f"{o}:m{m}:k{k}" for o in outcomes] + list(outcomes) + (["typed-threshold"] if case.get("ktype") else []),
                 "sigs": sigs, "sample": {"kind": case["kind"], "m": m, "k": k, "cases": [l for l, *_ in direct_inputs(m, k)][:8]}}
 
     # through the real filter: identity sensor, P = 0.5 I, Q = 0.5 I  =>  S = I exactly, K = 0.5 I
@@ -295,9 +311,9 @@ def eval_case(case):
             gi = ekf.innovations.get("s")
             if gi is None or [float(v) for v in gi.ravel()] != z:
                 fail("innovation-not-recorded", f"z={z} discarded={got}: recorded innovation {None if gi is None else gi.ravel().tolist()}")
-    return {"n": n, "fails": fails[:4], "outcomes": [f"{o}:m{m}:k{k}" for o in outcomes] + list(outcomes), "sigs": sigs,
+    return {"n": n, "fails": fails[:4], "outcomes": [f"{o}:m{m}:k{k}" for o in outcomes] + list(outcomes) + (["typed-threshold"] if case.get("ktype") else []), "sigs": sigs,
             "sample": {"kind": case["kind"], "m": m, "k": k, "boundary_readings": [z for _, z in zs[:3]]}}
 
 
-REQUIRED_OUTCOMES = (["keep", "discard", "cpp-helper-ran", "cpp-filter-ran", "py-multi-sensor", "py-discard-general", "cpp-discard-general"] + [f"{o}:helper:m{m}:k{k}" for o in ("keep", "discard") for m in MS for k in KS]
+REQUIRED_OUTCOMES = (["keep", "discard", "cpp-helper-ran", "cpp-filter-ran", "py-multi-sensor", "py-discard-general", "cpp-discard-general", "typed-threshold"] + [f"{o}:helper:m{m}:k{k}" for o in ("keep", "discard") for m in MS for k in KS]
                      + [f"{o}:cppf:m{m}:k5.0" for o in ("keep", "discard") for m in MS] + [f"keep:cppf:m{m}:kNone" for m in MS] + [f"keep:cppf:m{m}:k0.0" for m in MS] + [f"discard:m{m}:k{k}" for m in MS for k in KS] + [f"keep:m{m}:k{k}" for m in MS for k in KS + [None]])
